@@ -61,6 +61,48 @@ def write_replay(pid, seed, n, payload):
     return path
 
 
+def _descendants(root):
+    """pids of all live descendants of `root` (from /proc), deepest first"""
+    kids = {}
+    for name in os.listdir('/proc'):
+        if not name.isdigit():
+            continue
+        try:
+            with open('/proc/%s/stat' % name) as f:
+                parts = f.read().rsplit(')', 1)[1].split()
+            kids.setdefault(int(parts[1]), []).append(int(name))
+        except Exception:
+            continue
+    out, todo = [], [root]
+    while todo:
+        p = todo.pop()
+        for k in kids.get(p, []):
+            out.append(k)
+            todo.append(k)
+    return out[::-1]
+
+
+def _watchdog(pid, tier, scratch):
+    """a check must end: a run that is still going after the budget (a call of the library that never
+    returns, a worker that spins) is stopped with exit 2 - an infrastructure verdict, never a violation"""
+    import signal
+    budget = int(os.environ.get('VERIF_WATCHDOG_S', '2400' if tier == 'quick' else '21600'))
+
+    def stop(signum, frame):
+        try:
+            print('INFRA-ERROR property=%s watchdog: the check did not finish within %d s' % (pid, budget), flush=True)
+            for k in _descendants(os.getpid()):
+                try:
+                    os.kill(k, signal.SIGKILL)
+                except Exception:
+                    pass
+            shutil.rmtree(scratch, ignore_errors=True)
+        finally:
+            os._exit(2)
+    signal.signal(signal.SIGALRM, stop)
+    signal.alarm(budget)
+
+
 def main():
     ap = argparse.ArgumentParser()
     ap.add_argument('pid')
@@ -75,6 +117,7 @@ def main():
     os.environ['VERIF_SCRATCH'] = scratch
     os.environ['TMPDIR'] = scratch
     tempfile.tempdir = scratch
+    _watchdog(pid, tier, scratch)
     rc = 2
     try:
         rc = run_check(pid, tier, seed, args.replay, t0)
